@@ -1,6 +1,7 @@
 (* C12 — max_score stops the search exactly when the target is reached.
    Only statements; proofs live in proofs/C12_proofs.v. *)
 Require Import Base StopRun Converter Driver DriverObs DriverFacts StopFacts C12_proofs PyPrims PyPrimsQ DriverGen DriverTie.
+Require Import SearchGen SearchTie.
 
 (* For every optimizer (abstract record), space, objective (even call-index dependent), clock,
    prior history s and threshold m other than -inf: this call's scores sc satisfy
@@ -41,3 +42,20 @@ Print Assumptions C12_source_check_refines.
 (* the translated threshold test treats 0 as a threshold (non-vacuity of the refinement on the D1 input) *)
 Example C12_source_zero_threshold : g_score_exceeded (SFin 0) (Some (SFin 0)) = Ok true.
 Proof. reflexivity. Qed.
+
+(* C12 for a call whose loop is the code GENERATED from search.py (model init_search, generated loop, model finish_search) *)
+Theorem C12_source_search_max_score_exact : forall (OP : optimizer) sp f clk pa pr (s : drv OP) (c : call) (g : g_search (drv OP)) k g' k' s' (m : score),
+  init_search sp clk s c = Ok (abs g k) ->
+  ties g -> stop_wf pa pr g -> stop_shape pa pr g -> gs_n_init_search g <= 0 -> gs_n_iter g = c_n_iter c -> 0 <= c_n_iter c ->
+  g_Search_search_loop (drv OP) (inner_score sp f) clk k g (c_n_iter c) = Ok (g', k') ->
+  finish_search sp (abs g' k') = Ok s' ->
+  only_max_score c m -> m <> SNInf ->
+  exists sc : list score,
+    d_score_l s' = d_score_l s ++ sc /\ length (d_rows s') = (length (d_rows s) + length sc)%nat /\
+    match first_reach m sc with Some j => length sc = S j | None => zlen sc = c_n_iter c end /\
+    (sge (d_best_score s') m = true <-> exists x, In x sc /\ sge x m = true).
+Proof.
+  intros OP sp f clk pa pr s c g k g' k' s' m HI T WF SH NI NN N0 HL HF OM MN.
+  apply (@C12_holds OP sp f clk s s' c m OM MN N0). eapply source_search_is_model_search; eassumption.
+Qed.
+Print Assumptions C12_source_search_max_score_exact.
